@@ -25,6 +25,13 @@ CLAIMS = {
         "note": "Trusts libmpdec configured as decimal128 and Python Fraction. decNumber's deliberate <=3-byte over-reads of its own stack buffers are not instrumented (documented in lib/runner.py and DESIGN.md). ASan-clean is not memory safety.",
         "design_ref": "DESIGN.md §3 C02",
     },
+    "C05": {
+        "category": "exploration",
+        "technique": "crash/panic channel monitor (catch_unwind + panic hook + child-process death + watchdog) over hostile workloads, on debug and release builds in full and an ASan slice",
+        "text": "Texts from a typed grammar generator, mutations of every string literal of the repository's FEEL tests and every <text> of the shipped models (harvested from the working tree at run time), every ordered pair of lexical tokens in several surroundings (and every pair after for/some/every), arbitrary Unicode, nesting to depth 200, iteration products below 4096, and every built-in x arities 0..6 (positional and named) plus every operator, property and filter over an extreme argument alphabet (2^63, 2^64-1, 10^+-3000, decimal128 edges, NUL and astral strings, huge lists, DST-gap and out-of-range temporals, maximal durations) are parsed through all six parser entry points + parse_name / parse_longest_name in three scopes and evaluated; any panic, process death, sanitizer report or failure to finish is a violation. Quick ~1.1 M executions, thorough tens of millions.",
+        "note": "Termination is decided as bounded progress (a stalled case is re-run alone with a 300 s budget). Mutated texts whose iteration ranges exceed the property's size bound are left out. A returned error or null is never a violation.",
+        "design_ref": "DESIGN.md §3 C05",
+    },
     "C07": {
         "category": "exploration",
         "technique": "in-driver runtime oracle (digit-string arithmetic) over an exponent x length x shape sweep + independent Python Decimal / strict JSON cross-check, replayed under ASan",
